@@ -8,6 +8,7 @@ CONSTANTS
   Idle = 0
   WaitData = 0
   SockT = 0
+  V6 = FALSE
   KF = {}
   Cmds <- c_Cmds
   Datas <- c_Datas
